@@ -148,3 +148,77 @@ def check_retention(ctx: Ctx, rr: RuleResult, scope_pred=None) -> None:
                         continue
                 rr.fail(f.qual, f"calls {t.qual}({', '.join(sorted(b))}) without `calendar` although a calendar is in scope via {src}: the result silently falls back to the default (ISO) calendar",
                         ctx.loc(f, c), call=unparse(c)[:140])
+
+
+# ------------------------------------------------------------------------------------------ calendar-free producers
+
+
+def _types_of(ctx: Ctx, e: ast.expr, f: Func) -> list[Any]:
+    sc = ctx.R.scope(f)
+    try:
+        t = ctx.R.type_of(e, sc)
+    except Exception:  # noqa: BLE001
+        return [None]
+    if isinstance(t, tuple) and t[0] == "union":
+        return list(t[1])
+    return [t]
+
+
+def _carries_calendar(ctx: Ctx, e: ast.expr, f: Func) -> bool | None:
+    """Does the value of e carry a calendar (a calendar-bearing value or a CalendarSystem)?  None = type unknown."""
+    ts = _types_of(ctx, e, f)
+    if any(isinstance(t, str) and (t in ("CalendarSystem", "_YearMonthDayCalendar", "_CalendarOrdinal") or calendar_bearing(ctx, t)) for t in ts):
+        return True
+    if all(isinstance(t, str) or (isinstance(t, tuple) and t[0] in ("ext", "const", "type")) for t in ts) and ts:
+        return False
+    return None
+
+
+def calendar_free_productions(ctx: Ctx, f: Func):
+    """Calls in f that produce a calendar-bearing value although neither the receiver nor any argument carries a calendar:
+    whatever calendar the result has, it is not the one in scope (it can only be the default)."""
+    for c in own_nodes(f.node):
+        if not isinstance(c, ast.Call) or in_default_expr(c, f):
+            continue
+        tg, how = ctx.R.callees(c, f, count=False)
+        if how != "resolved" or not tg:
+            continue
+        rets = set()
+        for t in tg:
+            if t.name in ("__init__", "__new__") and t.cls is not None:
+                rets.add(t.cls.name)
+            elif isinstance(t.node, ast.FunctionDef) and t.node.returns is not None:
+                rt = ctx.M.ann_type(t.node.returns, t.mod)
+                for x in (rt[1] if isinstance(rt, tuple) and rt[0] == "union" else [rt]):
+                    if isinstance(x, str):
+                        rets.add(x)
+        if not rets or not all(calendar_bearing(ctx, r) for r in rets):
+            continue
+        inputs = [a.value if isinstance(a, ast.Starred) else a for a in c.args] + [k.value for k in c.keywords]
+        if isinstance(c.func, ast.Attribute):
+            inputs.append(c.func.value)
+        verdicts = [_carries_calendar(ctx, a, f) for a in inputs]
+        yield c, sorted(rets), verdicts, tg
+
+
+def check_calendar_free_productions(ctx: Ctx, rr: RuleResult) -> None:
+    """In code that has a calendar in scope, every call that produces a calendar-bearing value must be given something that
+    carries a calendar (receiver or argument): a result assembled from calendar-free pieces (an instant, a day number, a local
+    instant) can only come out in the default calendar, whatever the value in hand was in."""
+    for f in sorted(ctx.M.funcs.values(), key=lambda x: x.qual):
+        if isinstance(f.node, ast.Lambda) or "_compatibility" in f.mod.rel:
+            continue
+        src = in_scope_sources(ctx, f)
+        if not src:
+            continue
+        for c, rets, verdicts, tg in calendar_free_productions(ctx, f):
+            rr.inst()
+            if any(v is True for v in verdicts):
+                rr.ok()
+            elif governed_by_none_test(c):
+                rr.ok({"caller": f.qual, "call": unparse(c)[:80], "why": "under the caller's own `calendar is None` handling"})
+            elif any(v is None for v in verdicts):
+                rr.undecided.append(f"{f.qual}: `{unparse(c)[:80]}` has an input of unknown type")
+                rr.ok()
+            else:
+                rr.fail(f.qual, f"builds a {'/'.join(rets)} with `{unparse(c)[:100]}` from calendar-free inputs although a calendar is in scope via {src}: the result comes out in the default (ISO) calendar", ctx.loc(f, c))
